@@ -97,11 +97,50 @@ def run(ctx):
         else:
             ctx.sample({"create": cr.create_line(job["cfg"]), "env": job["env"], "N": job["N"], "hash": hs.get("push"),
                         "schedules": sorted(out)})
+    # ---- the variable-rate engine at a constant ratio: the same three schedules over the same stream, delivered bytes compared.
+    # (No stage switch is taken at a constant ratio, so known finding F12 - switch decisions per 64-frame chunk - does not apply; the VR
+    #  control skeleton itself is modelled in C16.)
+    def make_vr_job(rng, idx):
+        r = 2.0 ** rng.uniform(-4.0, 4.0)
+        if rng.chance(.35):
+            r = rng.choice([1.0, 2.0, 2.5, 0.5, 4.0, 1.5, 3.0, 0.25, 1.0884353741496597, 0.91875, 8.0, 5.0])
+        cfg = {"ir": repr(r), "or": "1", "recipe": 4, "qflags": 32, "itype": rng.choice([0, 1, 2, 3, 4, 5]), "otype": rng.choice([0, 1, 2, 3, 4, 5]),
+               "ioflags": 8, "ch": 1 + rng.below(3)}
+        N = rng.choice([0, 1, 2, 63, 1000, 4096]) if rng.chance(.25) else rng.below(30000 if ctx.quick else 200000)
+        return {"cfg": cfg, "env": {}, "N": min(N, int(150000 * r) + 3), "seed": rng.next() & 0xffffffff, "idx": idx}
+
+    def vr_work(job):
+        tr0 = cr.run_trace(exe, [cr.create_line(job["cfg"])], job["env"], timeout=120)
+        if not tr0.created:
+            return job, tr0, None
+        out = {}
+        for name, ops in schedules(job, []).items():
+            out[name] = (ops, cr.run_trace(exe, ops, job["env"], timeout=300))
+        return job, tr0, out
+
+    nvr = 0
+    for job, tr0, out in cr.pmap(vr_work, [make_vr_job(ctx.rng, i) for i in range(60 if ctx.quick else 2500)]):
+        ctx.count("evaluations")
+        if out is None:
+            ctx.count("rejected_configs"); continue
+        ctx.hist("dist_engine", tr0.engine)
+        hs = {}
+        for name, (ops, tr) in out.items():
+            ctx.count("schedules_run")
+            h = tr.hashes[-1] if tr.hashes else "none(rc=%s %s)" % (tr.rc, tr.err[-200:])
+            hs[name] = " ".join(t for t in h.split() if not t.startswith("pos="))
+        nvr += 1
+        ctx.hist("vr_log2_ratio", int(__import__("math").floor(__import__("math").log2(float(job["cfg"]["ir"])))))
+        if len(set(hs.values())) > 1:
+            ctx.violation("C05 fails on the real code (variable-rate engine, constant ratio): output differs between schedules %s (%s)" % (hs, cr.create_line(job["cfg"])),
+                          {"cfg": job["cfg"], "env": job["env"], "N": job["N"], "schedules": {k: v[0] for k, v in out.items()}, "hashes": hs})
+    ctx.count("vr_constant_ratio_jobs", nvr)
     ctx.cov["distinct_nontrivial"] = len(distinct)
     ctx.cov["rule"] = ("per job one configuration (all engines, datatypes, layouts, 1-4 channels, dither off) and one stream of N frames run "
                        "through three schedules on the real library — soxr_oneshot-style single call, random push (sizes around every internal "
                        "block length, with and without idone), random pull (max_ilen, supply pattern) — FNV hashes of every channel's delivered "
                        "bytes and the frame counts compared; each schedule also replayed through the Lean count model; distinct = (plan shape, "
-                       "engine, datatype pair) classes")
+                       "engine, datatype pair) classes.  Variable-rate engine: constant ratios 2^-4 .. 2^4 (and round ones), 1-3 channels, every datatype, "
+                       "the same three schedules, hashes compared (no count model: the VR skeleton is C16's)")
     ctx.assume(*cr.CR_ASSUME)
     cr.report_broken(ctx, broken, "C05 falsifier on %d jobs found no differing schedules" % njobs)
